@@ -12,6 +12,7 @@ CONSTANTS Loc,       \* Loc[a] : sequence of host addresses of agent a
           PreSignal, \* PreSignal[a] : the remote candidates a already holds when checks start
           MaxReq, MaxTicks, MaxLoss, MaxDup, MaxFlight, MaxInject, MaxRestart,
           D, F, K, H,  \* disconnected / failed timeouts, keepalive interval (0 = off), transaction lifetime
+          RFilter,     \* RFilter[a]: remote addresses a's remote IP filter rejects (signalled or discovered: never a remote candidate)
           DD, DC,      \* per agent: the disconnected timeout in effect, and the disconnected part of the initial checking deadline
                        \* (both D unless a lite agent keeps its defaults: then 10 s resp. the full agent's 5 s)
           Acc,         \* Acc[typ] : acceptance minimum wait per candidate type
@@ -272,7 +273,8 @@ Deliver(m) ==
      /\ IF lc \notin Rng(locals[b]) THEN   \* socket gone (restart, failure): datagram vanishes
            net' = net (-) One(m) /\ out' = EmptyBag /\ Nothing(b) /\ UNCHANGED lastRx
         ELSE IF m.kind = "req" THEN
-           IF ReqAuthOK(b, m) THEN HandleReq(b, lc, m) /\ UNCHANGED answered
+           \* a check from a source the remote IP filter rejects cannot become a peer-reflexive candidate: it is dropped unanswered
+           IF ReqAuthOK(b, m) /\ m.src \notin RFilter[b] THEN HandleReq(b, lc, m) /\ UNCHANGED answered
            ELSE net' = net (-) One(m) /\ out' = EmptyBag /\ Nothing(b) /\ UNCHANGED lastRx
         ELSE IF m.kind = "succ" THEN
            IF RespAuthOK(b, m) /\ RemIdx(remotes[b], m.src) # 0 THEN
@@ -336,7 +338,8 @@ SetRemoteCreds(a) ==
 AddRemote(a, c) ==
   /\ conn[a] # "Closed"
   /\ LET rs == remotes[a]  k == RemIdx(rs, c.addr) IN
-     IF k # 0 /\ rs[k].typ = c.typ THEN UNCHANGED <<remotes, pairs, nextId, conn>>
+     IF c.addr \in RFilter[a] THEN UNCHANGED <<remotes, pairs, nextId, conn>>      \* refused by the remote IP filter
+     ELSE IF k # 0 /\ rs[k].typ = c.typ THEN UNCHANGED <<remotes, pairs, nextId, conn>>
      ELSE IF k # 0 /\ rs[k].typ = "prflx" THEN   \* supersession keeps pairs (ids, states, priority override)
           /\ remotes' = [remotes EXCEPT ![a] = Append(SubSeq(rs, 1, k - 1) \o SubSeq(rs, k + 1, Len(rs)), c)]
           \* the pairs of the superseded candidate now belong to c; pairing c with every local finds them (findPair guard)
@@ -435,6 +438,8 @@ NoDowngradeInv == \A a \in Agents : (role[a] = "controlled" /\ sel[a] # 0 /\ las
                         pairs[a][k].prio <= pairs[a][PairById(pairs[a], sel[a])].prio
 
 SelListed == \A a \in Agents : sel[a] # 0 => PairById(pairs[a], sel[a]) # 0
+FilterHolds == \A a \in Agents : /\ \A kr \in 1..Len(remotes[a]) : remotes[a][kr].addr \notin RFilter[a]
+                                  /\ \A kp \in 1..Len(pairs[a]) : pairs[a][kp].r \notin RFilter[a]
 UniqueIds == \A a \in Agents : \A i, j \in 1..Len(pairs[a]) : i # j => pairs[a][i].id # pairs[a][j].id
 NoDupPairs == \A a \in Agents : \A i, j \in 1..Len(pairs[a]) : i # j => <<pairs[a][i].l, pairs[a][i].r>> # <<pairs[a][j].l, pairs[a][j].r>>
 PairsFromCurrent == \A a \in Agents : \A i \in 1..Len(pairs[a]) :
